@@ -31,7 +31,8 @@ STEP0 = 3
 
 
 def _sk(wc, wt, dev="ALL", short=False, nsteps=1, iters="default", self_=False, **kw):
-    d = {"id": f"{wc}|{wt}-{dev}-s{int(short)}-st{nsteps}-{iters}" + ("-self" if self_ else ""), "wc": wc, "wt": wt,
+    d = {"id": f"{wc}|{wt}-{dev}-s{int(short)}-st{nsteps}-{iters}" + ("-self" if self_ else "") + (
+        f"-r{kw['test_ranks']}sel{''.join(map(str, kw.get('test_sel', [])))}" if "test_ranks" in kw else ""), "wc": wc, "wt": wt,
          "nsteps": nsteps, "params": {"dev": dev, "short": short, "iters": iters, "self": self_}}
     d.update(kw)
     return d
@@ -43,7 +44,8 @@ def skeletons(tier):
                 _sk("a", "ab"), _sk("a", "aa"), _sk("aa", "a"), _sk("a", "ag"), _sk("a", "ag", "CPU"),
                 _sk("g", "gG"), _sk("g", "gG", short=True), _sk("gG", "g", short=True),
                 _sk("a", "a", nsteps=2, iters="all", nsteps_t=1), _sk("g", "a", nsteps=2, iters="all", nsteps_t=1),
-                _sk("a", "a", nsteps=2, self_=True), _sk("ag", "ag", self_=True), _sk("aA", "a"), _sk("a", "aA")]
+                _sk("a", "a", nsteps=2, self_=True), _sk("ag", "ag", self_=True), _sk("aA", "a"), _sk("a", "aA"),
+                _sk("a", "a", test_ranks=3, test_sel=[0, 2], same_ranks=True)]
     out = []
     words = ["a", "g", "ab", "ag", "gG", "aa", "aA"]
     for wc in words:
@@ -57,6 +59,8 @@ def skeletons(tier):
         out.append(_sk(wc, wc, nsteps=2, iters="all"))
         out.append(_sk(wc, wc, nsteps=2 if len(wc) < 2 else 1, self_=True))
     out.append(_sk("ag", "ag", test_ranks=2))
+    out.append(_sk("a", "g", test_ranks=3, test_sel=[0, 2]))
+    out.append(_sk("a", "a", test_ranks=3, test_sel=[1, 2]))
     out.append(_sk("abg", "agG", short=True))
     return out
 
@@ -88,10 +92,11 @@ def build(tag, word, nsteps, r=0):
     return ev, items, steps
 
 
-def prep(ctx, tag, word, nsteps, nranks=1):
+def prep(ctx, tag, word, nsteps, nranks=1, same=False):
     events, allitems, allsteps = {}, {}, {}
     for r in range(nranks):
-        ev, items, steps = build(tag, word, nsteps, r)
+        # same=True: every rank carries the same (symbolic) times, so the ranks add no further case splits
+        ev, items, steps = build(tag, word, nsteps, 0 if same else r)
         events[r] = ctx.val(ev)
         for x in items:
             x["ts"], x["dur"] = ctx.val(x["ts"]), ctx.val(x["dur"])
@@ -146,7 +151,7 @@ def run(ctx):
     if P["self"]:
         ev_t, it_t, st_t = ev_c, it_c, st_c
     else:
-        ev_t, it_t, st_t = prep(ctx, "t", sk["wt"], sk.get("nsteps_t", sk["nsteps"]), ntr)
+        ev_t, it_t, st_t = prep(ctx, "t", sk["wt"], sk.get("nsteps_t", sk["nsteps"]), ntr, sk.get("same_ranks", False))
     if ctx.mode == "sym":
         tc = ctx.open(ev_c, load=False).t
         tt = tc if P["self"] else ctx.open(ev_t, load=False).t
@@ -166,7 +171,7 @@ def run(ctx):
     else:
         ci = ti = all_iters[:1]
         kw = {}
-    test_ranks = list(range(ntr))
+    test_ranks = list(sk.get("test_sel", range(ntr)))
     if ntr > 1:
         kw["test_rank"] = test_ranks
     df = TD.TraceDiff.compare_traces(tc, tt, device_type=dev, use_short_name=P["short"], **kw)
